@@ -33,9 +33,9 @@ inner := {|| defer "id".p; "ip".p; 5}
 `
 
 // statement kinds
-var alphabet = []string{"P", "V", "D", "DT", "DF", "R", "RT", "RF", "X", "CF", "CD", "DX"}
-var reduced = []string{"P", "D", "DT", "DF", "R", "X", "CF", "DX"}
-var iterAlphabet = []string{"P", "D", "DF", "Y", "YT", "YF", "X", "DX"}
+var alphabet = []string{"P", "V", "D", "DT", "DF", "DN", "DZ", "R", "RT", "RF", "X", "CF", "CD", "DX"}
+var reduced = []string{"P", "D", "DN", "DZ", "R", "X", "CF", "DX"}
+var iterAlphabet = []string{"P", "D", "DF", "DN", "Y", "YT", "YN", "YF", "X", "DX"}
 
 type tcase struct {
 	Stmts []string `json:"stmts"`
@@ -54,6 +54,12 @@ func stmtSrc(kind string, k int) string {
 		return fmt.Sprintf(`defer "d%d".p if true`, k)
 	case "DF":
 		return fmt.Sprintf(`defer "d%d".p if false`, k)
+	case "DN": // truthy guard that is not the `true` object
+		return fmt.Sprintf(`defer "d%d".p if [%d]`, k, k)
+	case "DZ": // falsy guard that is not the `false` object
+		return fmt.Sprintf(`defer "d%d".p if ""`, k)
+	case "YN":
+		return fmt.Sprintf(`yield %d if "go"`, 30+k)
 	case "R":
 		return fmt.Sprintf("return %d", 70+k)
 	case "RT":
@@ -103,10 +109,10 @@ func model(stmts []string) outcome {
 			val = "nil"
 		case "V":
 			val = fmt.Sprint(90 + k)
-		case "D", "DT":
+		case "D", "DT", "DN":
 			defers = append(defers, fmt.Sprintf("d%d", k))
 			valDC = true
-		case "DF":
+		case "DF", "DZ":
 			val = "nil"
 		case "R", "RT":
 			val = fmt.Sprint(70 + k)
@@ -125,7 +131,7 @@ func model(stmts []string) outcome {
 		case "DX":
 			defers = append(defers, "!")
 			valDC = true
-		case "Y", "YT":
+		case "Y", "YT", "YN":
 			if yielded == "" {
 				yielded = fmt.Sprint(30 + k)
 			}
@@ -214,7 +220,7 @@ func nontrivial(t tcase) bool {
 	hasDefer, hasExit := false, false
 	for _, s := range t.Stmts {
 		switch s {
-		case "D", "DT", "DF", "DX":
+		case "D", "DT", "DF", "DX", "DN", "DZ":
 			hasDefer = true
 		case "R", "RT", "X", "CF", "YF":
 			hasExit = true
@@ -225,7 +231,7 @@ func nontrivial(t tcase) bool {
 
 func findingKey(t tcase, want outcome, o panrun.Obs) string {
 	last := t.Stmts[len(t.Stmts)-1]
-	lastDefer := last == "D" || last == "DT" || last == "DX"
+	lastDefer := last == "D" || last == "DT" || last == "DX" || last == "DN"
 	class := "trace"
 	if o.Out == want.out {
 		class = "outcome"
@@ -236,6 +242,11 @@ func findingKey(t tcase, want outcome, o panrun.Obs) string {
 	for _, s := range t.Stmts {
 		if s == "DX" {
 			return t.Ctx + "/" + class + "/raising-deferred-expression"
+		}
+	}
+	for _, s := range t.Stmts {
+		if s == "DN" || s == "DZ" || s == "YN" {
+			return t.Ctx + "/" + class + "/non-bool-guard"
 		}
 	}
 	return t.Ctx + "/" + class
